@@ -931,7 +931,9 @@ def c15(run):
     nontrivial = set(i for i, r in enumerate(res) if any(c.startswith("hostile_") for c in r.get("classes", [])))
     # ---- the Viseca reader: statements as line sequences (spec/ImportViseca.tla)
     run.rule += ("; spec/ImportViseca.tla: the line reader with one-line look-ahead as a state machine against the recursive statement grammar "
-                 "(MachineMatchesGrammar, OnePerEntryLine, ReadsBounded, CountIsCursor, Termination under fairness); every line sequence of up to "
+                 "(MachineMatchesGrammar, OnePerEntryLine, ReadsBounded, CountIsCursor, Termination under fairness; refinement of the cursor skeleton "
+                 "ImportVisecaCursor.tla, whose invariant Apalache proves inductive in the thorough tier); the reader's own read / peek / entry events "
+                 "validated by ImportVisecaTrace.tla; every line sequence of up to "
                  "%d lines over 14 line kinds (five entry shapes, category, exchange rate, fee, credited fee, malformed fee, Air tag, other text, "
                  "digit-initial text, blank) and every statement of up to %d well-formed records out of 42 shapes, in three line-end styles (LF, CRLF, "
                  "no final newline), through the Viseca importer: one transaction per entry line with the date, effective date, payee, counter "
@@ -940,8 +942,17 @@ def c15(run):
     run.assumptions += ["Viseca: a sentence of the statement grammar must import; for other line sequences the importer may refuse, and if it does not, "
                         "it yields one transaction per entry line"]
     t = "quick" if run.tier == "quick" else "thorough"
-    live = tlc_check("MCImportViseca.tla", "ImportViseca_live.cfg", workers=4, timeout=600)
+    live = tlc_check("MCImportViseca.tla", "ImportViseca_live.cfg", workers=4, timeout=600)    # Termination, RefinesCursor, CursorInv
     run.add_model(live)
+    if run.tier == "thorough":
+        # unbounded content: Apalache proves the cursor invariant of ImportVisecaCursor.tla (which ImportViseca.tla refines) inductive
+        t0 = __import__("time").time()
+        pa = subprocess.run([os.path.join(ROOT, "tools", "apalache_viseca.sh")], stdout=subprocess.PIPE, stderr=subprocess.STDOUT, text=True)
+        if pa.returncode != 0:
+            sys.stderr.write(pa.stdout[-2000:])
+            raise ToolError("Apalache: IndInv of ImportVisecaCursor.tla is not inductive, or a non-vacuity probe was not refuted")
+        run.add_model({"module": "apalache/ImportVisecaInd.tla", "cfg": "apalache-mc check --init=IndInit --inv=IndInv --length=1 (+ base case, 3 probes)",
+                       "states": 0, "transitions": 0, "seconds": round(__import__("time").time() - t0, 1)})
     off = len(res)
     for sc in ("wf", "arb"):
         nd2, n2, st2 = tlc_gen("MCImportViseca.tla", "ImportViseca_%s_%s.cfg" % (sc, t), "C15-viseca-%s" % sc, workers=8, timeout=2400)
